@@ -1,5 +1,6 @@
 """Runs one W-exec program under the simulator and returns an Observation."""
 import logging
+import os
 import threading
 
 from simkit import core
@@ -116,6 +117,16 @@ def run_spec(tape, spec, extra_threads=None, executes=1, style=0):
   if conf:
     CONF.load(_override=True, **conf)
   gate = core.Gate()
+  xkw = {}
+  saved_combine = None
+  if spec.get('profile'):
+    # phase threads run under cProfile; writing the combined statistics (real temp files) is
+    # output plumbing outside the properties and is skipped
+    from openhtf.core import test_executor as _te
+    saved_combine = _te.combine_profile_stats
+    _te.combine_profile_stats = lambda stats, filename: None
+    xkw['profile_filename'] = os.devnull
+    obs.faults['profiling_enabled'] = 1
   wout = {}
   ctx.wout = wout
   slow = None
@@ -176,7 +187,7 @@ def run_spec(tape, spec, extra_threads=None, executes=1, style=0):
           extra_threads(sim, ctx, test, threads)
         sim.event('exec_call')
         try:
-          obs.ret = test.execute(test_start=start)
+          obs.ret = test.execute(test_start=start, **xkw)
           sim.event('exec_ret', obs.ret)
         except KeyboardInterrupt:
           obs.exc = 'KeyboardInterrupt'
@@ -225,7 +236,7 @@ def run_spec(tape, spec, extra_threads=None, executes=1, style=0):
           sim.event('exec_call', j)
           r = {'ret': None, 'exc': None}
           try:
-            r['ret'] = test.execute(test_start=start)
+            r['ret'] = test.execute(test_start=start, **xkw)
             sim.event('exec_ret', r['ret'])
           except core.SimAbort:
             raise
@@ -252,6 +263,8 @@ def run_spec(tape, spec, extra_threads=None, executes=1, style=0):
         obs.failed_info = obs.failed_info or sim.failed_info
         sim.end()
   finally:
+    if saved_combine is not None:
+      _te.combine_profile_stats = saved_combine
     if slow is not None:
       logging.getLogger(logs.LOGGER_PREFIX).removeHandler(slow)
     if conf:
